@@ -270,7 +270,7 @@ Definition check_spec (ce : case * option (list res)) : bool := out_eqb (spec_ca
 
 Definition kw_empty (kw : kwargs) : bool := match kw with [] => true | _ => false end.
 (* which modelled quirk a deviating case goes through under [model_variant]:
-   2 = starmap fallback gives kwargs to list(); 3 = Pool.apply(**kwargs);
+   2 = starmap fallback gives kwargs to list(); 3 = Pool.apply with kwargs splatted;
    1 = PyNativeExec.map takes the packed branch (the tuple of iterables is passed as one iterable)
        although the backend unpacks or there is a single iterable; 0 = none *)
 Definition cause_code (c : case) : Z :=
